@@ -92,9 +92,39 @@ var c18Ctx = []map[string]stick.Value{
 	{"x": "é😀</script>", "t": true, "items": []stick.Value{"a'b"}},
 }
 
+// c18All is c18Templates plus generated multi-template programs (every tag and
+// operator, inheritance, include/embed/use/import), each under its own name prefix.
+var c18All map[string]string
+var c18Generated []string
+
+func c18Build(seed int64, n int) {
+	c18All = map[string]string{}
+	c18Generated = nil
+	for k, v := range c18Templates {
+		c18All[k] = v
+	}
+	var filters []string
+	for name := range twig.New(nil).Filters {
+		if name != "date" && name != "date_modify" {
+			filters = append(filters, name)
+		}
+	}
+	sort.Strings(filters)
+	for k := 0; k < n; k++ {
+		prefix := fmt.Sprintf("g%d/", k)
+		g := &gen.ProgGen{R: gen.Rng(seed, "c18prog", k), Hostile: k%4 == 3, Vars: c02vars, IterVars: c02IterVars, SingleEntryHashes: true,
+			Prefix: prefix, Filters: filters, Funcs: []string{"pure"}, Tests: []string{"pos"}}
+		ts, main := g.Program()
+		for name, src := range (&Program{Templates: ts, Main: main}).sources(gen.Canon{}) {
+			c18All[name] = src
+		}
+		c18Generated = append(c18Generated, main)
+	}
+}
+
 func c18NewEnvs() (*stick.Env, *stick.Env) {
-	tw := twig.New(&stick.MemoryLoader{Templates: c18Templates})
-	co := stick.New(&stick.MemoryLoader{Templates: c18Templates})
+	tw := twig.New(&stick.MemoryLoader{Templates: c18All})
+	co := stick.New(&stick.MemoryLoader{Templates: c18All})
 	for _, e := range []*stick.Env{tw, co} {
 		e.Functions["pure"] = func(ctx stick.Context, args ...stick.Value) stick.Value { return "pure:" + ctx.Name() }
 		e.Tests["pos"] = func(ctx stick.Context, v stick.Value, args ...stick.Value) bool { return stick.CoerceNumber(v) > 0 }
@@ -118,6 +148,9 @@ func c18copyCtx(m map[string]stick.Value) map[string]stick.Value {
 
 func c18do(env *stick.Env, op int, name string, ctx map[string]stick.Value) c18exp {
 	var e c18exp
+	if strings.HasPrefix(name, "g") && strings.Contains(name, "/") {
+		ctx = detContext() // a fresh map per call
+	}
 	func() {
 		defer func() {
 			if r := recover(); r != nil {
@@ -153,10 +186,13 @@ var (
 
 func (p *c18) Init(tier string, seed int64) {
 	p.tier, p.seed = tier, seed
-	p.rounds = p.pick(240, 5400)
+	p.rounds = p.pick(160, 3200)
+	c18Build(seed, p.pick(10, 24))
+	p.names = nil
 	for n := range c18Templates {
 		p.names = append(p.names, n)
 	}
+	p.names = append(p.names, c18Generated...)
 	sort.Strings(p.names)
 	// no monitor-side atomics in this check: remove the step hooks installed by the worker
 	parse.VerifLexStep, parse.VerifLexStart, parse.VerifLexExit, parse.VerifParseStep = nil, nil, nil, nil
@@ -321,7 +357,7 @@ func (p *c18) Run(i int) (res fw.Result) {
 }
 
 func (p *c18) Rule() string {
-	return fmt.Sprintf("rounds: N in {2,4,16,64} goroutines released by one barrier, each doing 3..6 calls decided beforehand (Execute or Parse, Twig or core environment, one of %d templates mixing .html/.js/.css/.txt/no extension/unknown extension, blocks, inheritance, include and embed of another content type, macros, imports, filter sections, captures, a syntax error and a run-time error; 4 contexts) with its own context map and buffer, on ONE shared twig.New and ONE shared stick.New environment per worker process; GOMAXPROCS in {1,2,16}. Even rounds run in -race workers (traverse hook = bare Gosched at module/block/body/print nodes, no monitor-side synchronisation); odd rounds in plain workers (hook = seeded yields and micro-sleeps, global module-enter event log). Oracles: (1) the race detector's log (halt_on_error=0, log_path) parsed by the driver: every report with a library frame is a violation, deduplicated by the set of library functions involved; (2) every concurrent result (output and error text, or the parsed tree's String()) equals the result of the same call on a fresh identically configured environment run alone; (3) no panic in any goroutine. Non-trivial = plain-build round in which >=2 calls were in flight at once; distinct = (N, hash of the global order of module-enter events).", len(c18Templates))
+	return fmt.Sprintf("rounds: N in {2,4,16,64} goroutines released by one barrier, each doing 3..6 calls decided beforehand (Execute or Parse, Twig or core environment, one of %d hand-written templates and 10 (quick) / 24 (thorough) generated multi-template programs (every tag and operator, inheritance chains, include/embed/use/import; own name prefix each), mixing .html/.js/.css/.txt/no extension/unknown extension, blocks, inheritance, include and embed of another content type, macros, imports, filter sections, captures, a syntax error and a run-time error; 4 contexts) with its own context map and buffer, on ONE shared twig.New and ONE shared stick.New environment per worker process; GOMAXPROCS in {1,2,16}. Even rounds run in -race workers (traverse hook = bare Gosched at module/block/body/print nodes, no monitor-side synchronisation); odd rounds in plain workers (hook = seeded yields and micro-sleeps, global module-enter event log). Oracles: (1) the race detector's log (halt_on_error=0, log_path) parsed by the driver: every report with a library frame is a violation, deduplicated by the set of library functions involved; (2) every concurrent result (output and error text, or the parsed tree's String()) equals the result of the same call on a fresh identically configured environment run alone; (3) no panic in any goroutine. Non-trivial = plain-build round in which >=2 calls were in flight at once; distinct = (N, hash of the global order of module-enter events).", len(c18Templates))
 }
 
 func (p *c18) Assumptions() []string {
@@ -329,5 +365,5 @@ func (p *c18) Assumptions() []string {
 }
 
 func (p *c18) Floors(tier string) map[string]int64 {
-	return map[string]int64{"concurrent_calls": 2000, "race_build_rounds": 50, "rounds_with_overlap": 30, "distinct_nontrivial": 30, "race_log_files": 0}
+	return map[string]int64{"concurrent_calls": 2000, "race_build_rounds": 40, "rounds_with_overlap": 30, "distinct_nontrivial": 30, "race_log_files": 0}
 }
